@@ -8,3 +8,4 @@ pub mod lock;
 pub mod orpat;
 pub mod guard;
 pub mod panic;
+pub mod folddrop;
